@@ -5,6 +5,7 @@ import (
 	"math"
 	"math/big"
 	"reflect"
+	"runtime"
 	"sort"
 	"sync"
 	"time"
@@ -821,6 +822,12 @@ func runC07(c *hc.Ctx) error {
 				c.Violate(hc.Violation{What: "the same polygon and settings returned different geometry on repetition / with the id list permuted", Input: caseJSON(g, poly, ids, cfg, r), Observed: r2.Raw})
 			}
 		}
+		// a caller that keeps its values: the very same polygon value and id slice are handed over twice (nothing is rebuilt
+		// or copied in between), and one id buffer is refilled for successive requests.  A call that writes into its
+		// arguments, or keeps a reference to them for the next call, shows here.
+		if reused := reusedValues(c, g, poly, ids, cfg, r); reused != "" {
+			continue
+		}
 		if valid {
 			rp := make([][]Pt, len(poly))
 			for k := range poly {
@@ -849,6 +856,7 @@ func runC07(c *hc.Ctx) error {
 	}
 	componentStream(c)
 	concurrentRepetition(c, grids)
+	bigRingsAcrossProcs(c)
 	// built-in sets whose CRS lists northing first (the point of origin is put in x,y order on every use): the same
 	// loaded set used again and again must keep giving the same answer
 	for _, name := range []string{"EuropeanETRS89_LAEAQuad", "NZTM2000Quad", "WGS1984Quad"} {
@@ -892,6 +900,114 @@ func runC07(c *hc.Ctx) error {
 		}
 	}
 	return nil
+}
+
+// bigRingsAcrossProcs: "in every process": a ring of a thousand and more vertices (a digitised circle whose segments are
+// shorter than a pixel) is snapped with GOMAXPROCS 1, 2, 3 and 8, as processes on machines with other core counts
+// would; work that is split by size and by the number of threads shows here.
+func bigRingsAcrossProcs(c *hc.Ctx) {
+	g, err := newSyntheticGrid(4, 16, 0, 0)
+	if err != nil {
+		return
+	}
+	old := runtime.GOMAXPROCS(0)
+	defer runtime.GOMAXPROCS(old)
+	size := int64(1) << g.Deep
+	for k := 0; k < c.N(2, 12); k++ {
+		n := []int{1024, 1500, 2048, 4096}[c.Rng.Intn(4)]
+		cx := g.Ext[0] + (size/2)*g.Res + c.Rng.Int63n(g.Res)
+		cy := g.Ext[1] + (size/2)*g.Res + c.Rng.Int63n(g.Res)
+		rad := float64((size/8 + c.Rng.Int63n(size/4)) * g.Res)
+		ring := make([]Pt, 0, n)
+		for i := 0; i < n; i++ {
+			a := 2 * math.Pi * float64(i) / float64(n)
+			ring = append(ring, Pt{cx + int64(rad*math.Cos(a)), cy + int64(rad*math.Sin(a))})
+		}
+		poly := [][]Pt{ring}
+		if !g.inGrid(poly) {
+			continue
+		}
+		ids := []int{g.DeepestID - 2 + c.Rng.Intn(3), g.DeepestID}
+		if ids[0] == ids[1] {
+			ids = ids[:1]
+		}
+		cfg := randCfg(c.Rng)
+		cfg.IgnoreOutsideGrid = false
+		runtime.GOMAXPROCS(1)
+		first := runSnap(g, poly, ids, cfg, watchdog)
+		for _, procs := range []int{2, 3, 8} {
+			runtime.GOMAXPROCS(procs)
+			again := runSnap(g, poly, ids, cfg, watchdog)
+			c.Sum.Evaluations++
+			c.Count("ring of >= 1024 vertices repeated under another GOMAXPROCS")
+			if again.Panic != first.Panic || !reflect.DeepEqual(first.Raw, again.Raw) {
+				obs := any(again.Raw)
+				if again.Panic != "" {
+					obs = again.Panic + ": " + again.PanicMsg
+				}
+				c.Violate(hc.Violation{What: fmt.Sprintf("the same polygon (a ring of %d vertices) and settings returned different geometry with GOMAXPROCS=%d than with GOMAXPROCS=1", n, procs),
+					Input: map[string]any{"grid": g.Name, "ring": "circle", "vertices": n, "centre": Pt{cx, cy}, "radius_units": rad, "ids": ids, "config": cfgJSON(cfg)}, Observed: obs})
+				break
+			}
+		}
+	}
+}
+
+// reusedValues: see the call site.  Returns a non-empty string after reporting a violation.
+func reusedValues(c *hc.Ctx, g *Grid, poly [][]Pt, ids []int, cfg snap.Config, want *Result) string {
+	fp, _ := g.toFloatPoly(poly)
+	before, _ := g.toFloatPoly(poly)
+	buf := append([]int(nil), ids...)
+	for rep := 1; rep <= 2; rep++ {
+		got := runSnapShared(g, fp, buf, cfg, watchdog)
+		c.Sum.Evaluations++
+		c.Count("repetition with the caller's own polygon value and id slice (nothing copied)")
+		if got.Panic != want.Panic || !reflect.DeepEqual(got.Raw, want.Raw) {
+			obs := any(got.Raw)
+			if got.Panic != "" {
+				obs = got.Panic + ": " + got.PanicMsg
+			}
+			what := fmt.Sprintf("the same polygon VALUE snapped again (call %d with the same slices, nothing rebuilt in between) returned different geometry", rep)
+			if !reflect.DeepEqual(fp, before) {
+				what += ": the call wrote into the caller's polygon"
+			}
+			if !reflect.DeepEqual(buf, ids) {
+				what += ": the call wrote into the caller's id slice"
+			}
+			c.Violate(hc.Violation{What: what, Input: caseJSON(g, poly, ids, cfg, want), Observed: obs})
+			return what
+		}
+	}
+	if !reflect.DeepEqual(fp, before) || !reflect.DeepEqual(buf, ids) {
+		what := "SnapPolygon wrote into its arguments (the polygon or the id slice differs after the call): the caller's next use of that value snaps another polygon"
+		c.Violate(hc.Violation{What: what, Input: caseJSON(g, poly, ids, cfg, want), Observed: map[string]any{"polygon_after": fp, "ids_after": buf}})
+		return what
+	}
+	// one id buffer refilled: first another request of the same length, then this one
+	if g.DeepestID >= len(ids) && len(ids) > 0 {
+		perm := c.Rng.Perm(g.DeepestID + 1)
+		other := perm[:len(ids)]
+		if !reflect.DeepEqual(other, ids) {
+			buf2 := make([]int, len(ids)) // a buffer of its own: the calls above must not have seen it
+			copy(buf2, other)
+			fp2, _ := g.toFloatPoly(poly)
+			_ = runSnapShared(g, fp2, buf2, cfg, watchdog)
+			copy(buf2, ids)
+			got := runSnapShared(g, fp2, buf2, cfg, watchdog)
+			c.Sum.Evaluations++
+			c.Count("id buffer refilled between two requests")
+			if got.Panic != want.Panic || !reflect.DeepEqual(got.Raw, want.Raw) {
+				obs := any(got.Raw)
+				if got.Panic != "" {
+					obs = got.Panic + ": " + got.PanicMsg
+				}
+				what := fmt.Sprintf("the request %v made from an id buffer that held %v for the previous request returned different geometry (or other keys) than the same request made from a fresh slice", ids, other)
+				c.Violate(hc.Violation{What: what, Input: caseJSON(g, poly, ids, cfg, want), Observed: obs})
+				return what
+			}
+		}
+	}
+	return ""
 }
 
 // concurrentRepetition: "in every process and on every repetition" also while other goroutines are snapping other
